@@ -114,6 +114,7 @@ extern (*cepRunner).partitionKey
 
 func (*DataProcessor).processCEP
   props C15 C05 C01 C03 C07 C08 C09 C10 C12 C17 C20
+  option recovers
   modifies *
   observe enriched := enrichData
   observe keep := enrichData#1
@@ -135,6 +136,7 @@ func (*DataProcessor).processCEP
 // the consumer of window batches ends only when stopped or when the window's output is closed; every batch it takes is processed
 func (*DataProcessor).startWindowProcessing$1
   props C01 C08 C09 C10 C03 C05 C07 C12 C15 C17 C20
+  option recovers
   modifies *
   before processWindowBatch a-batch-taken-from-the-window-is-processed-as-it-is: $selected == 0 && $recvok && seqeq($arg1, batch)
   atreturn the-consumer-ends-only-when-stopped-or-the-output-is-closed: $selected == 1 || ($selected == 0 && !$recvok)
@@ -322,6 +324,10 @@ func (*DataProcessor).applyHavingWithCondition
   before NewExprCondition [C13] the-text-compiled-is-the-having-text-after-both-rewritings: $arg0 == ite($hasNull && $nullErr == nil, $isnull, ite($hasLike && $likeErr == nil, $like, old(dp.stream.config.Having)))
   atreturn every-group-of-the-batch-is-tested-against-having: $cerr == nil ==> $tested == len(results)
   atreturn an-unusable-having-filters-nothing: $cerr != nil ==> seqeq(result, results)
+  observe verdict := Evaluate
+  before Evaluate each-group-is-tested-on-its-own-row-by-the-compiled-having: $arg1 == boxof(result, map[string]any)
+  loop 1 step a-group-is-kept-exactly-when-having-is-true-for-it: len(filteredResults) == prev(len(filteredResults)) + ite($verdict, 1, 0)
+  loop 1 step the-group-kept-is-this-one-and-earlier-ones-stay: ($verdict ==> filteredResults[len(filteredResults) - 1] == $s[$i - 1]) && forall(j, 0, prev(len(filteredResults)), filteredResults[j] == prev(filteredResults)[j])
   loop 1 invariant $tested == $i && $cerr == nil
   loop 1 invariant len(filteredResults) <= $i && forall(j, 0, len(filteredResults), exists(k, 0, $i, filteredResults[j] == $s[k]))
 
@@ -366,6 +372,30 @@ func (*DataProcessor).applyHavingFilter
   before applyHavingWithCaseExpression the-batch-given-is-filtered: seqeq($arg1, results)
   before applyHavingWithCondition the-batch-given-is-filtered: seqeq($arg1, results)
   atreturn case-in-any-letter-case-selects-the-case-evaluator: ite(strings.Contains(strings.ToUpper(old(dp.stream.config.Having)), "CASE"), $viaCase == 1 && $viaCond == 0, $viaCase == 0 && $viaCond == 1)
+
+// HAVING with a CASE expression: the expression is built from the HAVING text (backticks rewritten), every group is
+// evaluated on its own row, and a group is kept exactly when the value is a positive number, a non-empty text or
+// any other non-NULL value; an evaluation error or NULL drops the group
+pred caseKeeps(err, isNull, v) := err == nil && !isNull && v != nil && (hasType(v, float64) ==> realval(v) > 0.0) && (hasType(v, string) ==> strval(v) != "")
+
+func (*DataProcessor).applyHavingWithCaseExpression
+  props C07 C01 C03 C05 C08 C09 C10 C12 C15 C17 C20 C13
+  modifies *
+  count tested := EvaluateValueWithNull
+  observe xerr := NewExpression#1
+  observe bt := ContainsBacktickIdentifiers
+  observe pre := PreprocessBacktickIdentifiers
+  observe preErr := PreprocessBacktickIdentifiers#1
+  observe val := EvaluateValueWithNull
+  observe isNull := EvaluateValueWithNull#1
+  observe everr := EvaluateValueWithNull#2
+  before NewExpression the-text-compiled-is-the-having-text-backticks-rewritten: $arg0 == ite($bt && $preErr == nil, $pre, old(dp.stream.config.Having))
+  before EvaluateValueWithNull each-group-is-evaluated-on-its-own-row: $arg1 == result
+  atreturn every-group-of-the-batch-is-tested-against-having: $xerr == nil ==> $tested == len(results) && $done1
+  atreturn an-unusable-having-filters-nothing: $xerr != nil ==> seqeq(result0, results)
+  loop 1 invariant $tested == $i && $s == results && len(filteredResults) <= $i
+  loop 1 step a-group-is-kept-exactly-when-its-case-value-is-true: len(filteredResults) == prev(len(filteredResults)) + ite(caseKeeps($everr, $isNull, $val), 1, 0)
+  loop 1 step the-group-kept-is-this-one-and-earlier-ones-stay: (caseKeeps($everr, $isNull, $val) ==> filteredResults[len(filteredResults) - 1] == $s[$i - 1]) && forall(j, 0, prev(len(filteredResults)), filteredResults[j] == prev(filteredResults)[j])
 
 func (*Stream).applyOrderBy
   props C07 C05
@@ -478,6 +508,28 @@ func (*MemoryTableSource).Delete
 func NewMemoryTableSource
   props C16
   ensures fresh(result) && tableInv(result)
+  ensures the-index-is-keyed-by-the-fields-given-in-the-order-given: result.name == name && seqeq(result.keyFields, keyFields)
+  loop 1 invariant fresh(src) && src.index != nil && fresh(src.index) && src.name == name && seqeq(src.keyFields, keyFields)
+
+// registering a table indexes it on the fields of the ON clause, in the order written (the lookup tuple is built in
+// that order)
+func (*Stream).RegisterMemoryTable
+  props C16 C05 C06 C12 C13 C14 C15 C19 C20
+  modifies *
+  before NewMemoryTableSource the-index-is-built-on-the-key-fields-given-in-the-order-given: $arg0 == name && seqeq($arg1, keyFields) && seqeq($arg2, rows)
+  observe src := NewMemoryTableSource
+  before register the-table-registered-is-the-one-just-built: $arg1 == boxof($src, *MemoryTableSource)
+  atreturn the-table-handed-back-is-the-one-registered: result1 == nil ==> result0 == $src
+
+// a memory table is shared by every stream it was registered with: closing it for one of them (a stopped stream closes
+// its sources) leaves the rows where they are
+func (*MemoryTableSource).Close
+  props C16 C20
+  ensures closing-is-a-no-op: result == nil
+
+func (*MemoryTableSource).Init
+  props C16 C20
+  ensures init-is-a-no-op: result == nil
 
 func (*tableStore).get
   props C16
@@ -579,7 +631,7 @@ func (*DropStrategy).Init
   ensures bound-to-this-stream-and-nothing-else-changed: ds.stream == stream && result == nil
 
 func (*ExpansionStrategy).ProcessData
-  props C19
+  props C19 C01 C03 C05 C08 C09 C10 C14 C15 C17 C20
   option channel_events
   modifies es.stream.expanding, es.stream.dataChan, es.stream.mInputDropped.val, ghost(sends), ghost(recvs), ghost(dones), ghost(timeouts_migrationTimeout), ghost(timeouts_timer), ghost(drained)
   ensures enqueued-once-or-counted-as-dropped-or-stopping: ghost(timeouts_migrationTimeout) == old(ghost(timeouts_migrationTimeout)) ==> ((ghost(sends) - ghost(recvs)) - (old(ghost(sends)) - old(ghost(recvs))) + (es.stream.mInputDropped.val - old(es.stream.mInputDropped.val)) == 1 || (old(es.stream.stopped) == 1 || ghost(dones) > old(ghost(dones))) && (ghost(sends) - ghost(recvs)) == (old(ghost(sends)) - old(ghost(recvs))) && es.stream.mInputDropped.val == old(es.stream.mInputDropped.val))
@@ -588,14 +640,14 @@ func (*ExpansionStrategy).ProcessData
   loop 1 invariant es.stream.mInputDropped.val == old(es.stream.mInputDropped.val) && ghost(dones) == old(ghost(dones)) && 0 <= i
 
 func (*DropStrategy).ProcessData
-  props C19
+  props C19 C01 C03 C05 C08 C09 C10 C14 C15 C17 C20
   option channel_events
   modifies ds.stream.mInputDropped.val, ghost(sends), ghost(dones), ghost(timeouts_timer)
   ensures enqueued-once-or-counted-as-dropped-or-stopping: (ghost(sends) - old(ghost(sends))) + (ds.stream.mInputDropped.val - old(ds.stream.mInputDropped.val)) == 1 || (old(ds.stream.stopped) == 1 || ds.stream.dataChan == nil || ghost(dones) > old(ghost(dones))) && ghost(sends) == old(ghost(sends)) && ds.stream.mInputDropped.val == old(ds.stream.mInputDropped.val)
   loop 1 invariant ghost(sends) == old(ghost(sends)) && ds.stream.mInputDropped.val == old(ds.stream.mInputDropped.val) && ghost(dones) == old(ghost(dones))
 
 func (*BlockingStrategy).ProcessData
-  props C19
+  props C19 C01 C03 C05 C08 C09 C10 C14 C15 C17 C20
   option channel_events
   modifies bs.stream.mInputDropped.val, ghost(sends), ghost(dones), ghost(timeouts_timer)
   ensures enqueued-once-or-counted-as-dropped-or-stopping: (ghost(sends) - old(ghost(sends))) + (bs.stream.mInputDropped.val - old(bs.stream.mInputDropped.val)) == 1 || (old(bs.stream.stopped) == 1 || bs.stream.dataChan == nil || ghost(dones) > old(ghost(dones))) && ghost(sends) == old(ghost(sends)) && bs.stream.mInputDropped.val == old(bs.stream.mInputDropped.val)
@@ -665,6 +717,12 @@ func (*Stream).applyWhereAndAnalytic
   ensures a-row-passes-exactly-when-where-is-true-for-it: keep <==> (s.filter == nil || $w)
   ensures nothing-to-inject-nothing-written: len(s.config.AnalyticFields) == 0 && len(s.config.WhereAnalyticCalls) == 0 ==> mapUnchanged(dataMap)
   ensures where-false-yields-nothing: !keep ==> analyticResults == nil
+  count evals := evalAnalytic
+  observe ares := evalAnalytic
+  before evalAnalytic the-analytic-state-advances-on-this-row: $arg1 == dataMap
+  atreturn [C14] the-analytic-state-advances-at-most-once-per-row: $evals <= 1
+  atreturn [C14] before-where-exactly-when-where-refers-to-an-analytic-call-otherwise-only-for-rows-that-pass: $evals == ite(len(s.config.WhereAnalyticCalls) > 0 || keep, 1, 0)
+  atreturn [C14] the-values-handed-on-are-those-of-that-one-evaluation: keep ==> analyticResults == $ares
 
 // ---------------------------------------------------------------- C05: stateless row-wise filter and projection
 pred finfo(s, spec) := s.compiledFieldInfo[spec]
@@ -694,10 +752,69 @@ func (*Stream).smartSplitArgs
 func (*Stream).processExpressionField
   props C05 C20 C06 C04 C07 C16
   option assumed_frame
+  requires result != nil
   modifies mapof(result)
   count asked := EvaluateExpression
   observe ferr := EvaluateValueWithNull#2
   atreturn [C05 C06] on-the-fast-path-a-failure-of-the-numeric-engine-is-not-the-answer-the-bridge-is-asked: old(s.compiledExprInfo != nil && dom(s.compiledExprInfo, fieldName) && s.compiledExprInfo[fieldName] != nil && !s.compiledExprInfo[fieldName].isFunctionCall && !s.compiledExprInfo[fieldName].hasNestedFields && s.compiledExprInfo[fieldName].compiledExprFastPath) && $ferr != nil ==> $asked >= 1
+
+// the arguments of a function column are worked out from the expression text and THIS row on every row: a quoted
+// argument is its text, a nested call is executed on this row, a word that is a column of this row is that column's
+// value on this row (asked anew for every row), a number is its value
+func (*Stream).parseFunctionArgs
+  props C05 C20 C06 C04 C07 C16
+  option assumed_frame
+  observe fld := lookupRowField
+  observe known := lookupRowField#1
+  observe nested := executeFunction
+  observe nestedErr := executeFunction#1
+  before lookupRowField a-bare-word-is-looked-up-in-this-row: $arg0 == data && $arg1 == arg
+  before executeFunction a-nested-call-is-executed-on-this-row: $arg1 == arg && $arg2 == data
+  before EvaluateExpression an-operator-expression-is-evaluated-on-this-row: $arg1 == arg && $arg2 == data
+  before ParseFloat a-numeric-argument-is-read-at-full-precision: $arg1 == 64 && $arg0 == arg
+  loop 1 invariant len(args) == len(argParts) && $s == argParts
+  loop 1 step a-quoted-argument-is-its-text: (strings.HasPrefix(strings.TrimSpace($s[$i - 1]), "'") && strings.HasSuffix(strings.TrimSpace($s[$i - 1]), "'") ==> args[$i - 1] == boxof(strings.Trim(strings.TrimSpace($s[$i - 1]), "'"), string))
+  loop 1 step a-word-that-is-a-column-of-this-row-is-that-columns-value-on-this-row: !(strings.HasPrefix(strings.TrimSpace($s[$i - 1]), "'") && strings.HasSuffix(strings.TrimSpace($s[$i - 1]), "'")) && !(strings.HasPrefix(strings.TrimSpace($s[$i - 1]), "\"") && strings.HasSuffix(strings.TrimSpace($s[$i - 1]), "\"")) && !strings.Contains(strings.TrimSpace($s[$i - 1]), "(") && $known ==> args[$i - 1] == $fld
+  loop 1 step the-arguments-already-worked-out-stay: forall(j, 0, $i - 1, args[j] == prev(args)[j])
+
+// the fallback of a SELECT expression (no compiled info): the column is always written, and only it; a call goes to the
+// bridge with the IS NULL / LIKE rewriting of the expression's own text and this row; a dotted non-call expression
+// goes to the hand-written engine on this row; anything else tries the bridge first and the engine only when the
+// bridge fails; an error or NULL gives NULL, otherwise the value computed is the value stored
+func (*Stream).processExpressionFieldFallback
+  props C05 C20 C06 C04 C07 C16 C13
+  option assumed_frame
+  requires result != nil
+  modifies mapof(result)
+  observe hasNull := ContainsIsNullOperator
+  observe isnull := PreprocessIsNullExpression
+  observe nullErr := PreprocessIsNullExpression#1
+  observe hasLike := ContainsLikeOperator
+  observe like := PreprocessLikeExpression
+  observe likeErr := PreprocessLikeExpression#1
+  observe bt := ContainsBacktickIdentifiers
+  observe pre := PreprocessBacktickIdentifiers
+  observe preErr := PreprocessBacktickIdentifiers#1
+  observe bval := EvaluateExpression
+  observe berr := EvaluateExpression#1
+  observe xerr := NewExpression#1
+  observe xval := EvaluateValueWithNull
+  observe xnull := EvaluateValueWithNull#1
+  observe xeverr := EvaluateValueWithNull#2
+  count bridged := EvaluateExpression
+  count engined := EvaluateValueWithNull
+  before ContainsIsNullOperator the-rewriting-starts-from-the-expressions-own-text: $arg1 == old(s.config.FieldExpressions[fieldName].Expression)
+  before ContainsLikeOperator the-like-rewriting-continues-from-the-is-null-rewriting: $arg1 == ite($hasNull && $nullErr == nil, $isnull, old(s.config.FieldExpressions[fieldName].Expression))
+  before EvaluateExpression the-bridge-sees-the-rewritten-text-and-this-row: $arg2 == dataMap && $arg1 == ite($hasLike && $likeErr == nil, $like, ite($hasNull && $nullErr == nil, $isnull, old(s.config.FieldExpressions[fieldName].Expression)))
+  before NewExpression the-engine-parses-the-expressions-own-text-backticks-rewritten: $arg0 == ite($bt && $preErr == nil, $pre, old(s.config.FieldExpressions[fieldName].Expression))
+  before EvaluateValueWithNull the-engine-sees-this-row: $arg1 == dataMap
+  atreturn the-column-is-always-written-and-only-it: dom(result, fieldName) && otherKeysKept(result, fieldName)
+  atreturn an-unknown-expression-gives-null: !old(dom(s.config.FieldExpressions, fieldName)) ==> result[fieldName] == nil && $bridged == 0 && $engined == 0
+  atreturn the-bridges-answer-is-the-value-stored: $bridged == 1 && $berr == nil ==> result[fieldName] == $bval && $engined == 0
+  atreturn the-engines-answer-is-the-value-stored-null-as-null: $engined == 1 ==> result[fieldName] == ite($xeverr != nil || $xnull, nil, $xval)
+  atreturn a-call-never-falls-back-to-the-engine: old(dom(s.config.FieldExpressions, fieldName)) && strings.Contains(old(s.config.FieldExpressions[fieldName].Expression), "(") && strings.Contains(old(s.config.FieldExpressions[fieldName].Expression), ")") ==> $bridged == 1 && $engined == 0 && ($berr != nil ==> result[fieldName] == nil)
+  atreturn a-dotted-non-call-goes-to-the-engine-only: old(dom(s.config.FieldExpressions, fieldName)) && !(strings.Contains(old(s.config.FieldExpressions[fieldName].Expression), "(") && strings.Contains(old(s.config.FieldExpressions[fieldName].Expression), ")")) && strings.Contains(old(s.config.FieldExpressions[fieldName].Expression), ".") ==> $bridged == 0 && ($xerr == nil ==> $engined == 1) && ($xerr != nil ==> result[fieldName] == nil)
+  atreturn anything-else-tries-the-bridge-first-and-the-engine-only-when-it-fails: old(dom(s.config.FieldExpressions, fieldName)) && !strings.Contains(old(s.config.FieldExpressions[fieldName].Expression), ".") && !(strings.Contains(old(s.config.FieldExpressions[fieldName].Expression), "(") && strings.Contains(old(s.config.FieldExpressions[fieldName].Expression), ")")) ==> $bridged == 1 && ($berr != nil && $xerr == nil ==> $engined == 1) && ($berr != nil && $xerr != nil ==> result[fieldName] == nil)
 
 // qst(s, n): quote state after the first n bytes of a "field:alias" spec: 0 outside quotes, else the byte that
 // opened the quote (', " or `). A colon is the field/alias separator only where the state before it is 0.
@@ -804,6 +921,7 @@ func (*DataProcessor).processDirectData
 
 func (*DataProcessor).processItem
   props C20 C01 C03 C05 C07 C08 C09 C10 C12 C15 C17
+  option recovers
   modifies *
   observe enriched := enrichData
   observe keep := enrichData#1
@@ -952,6 +1070,7 @@ func (*analyticFieldEngine).evalWrapper
 
 func (*analyticFieldEngine).evaluate
   props C14 C12
+  option recovers
   requires fe != nil && fe.lastResults != nil
   modifies *
   observe pk := partitionKey
